@@ -459,7 +459,8 @@ def coerce (env : CoerceEnv) (c : JClass) (d : Py) : Outcome Py :=
 /-- `LiteralMethod` with a coercer (after the repair of row 5): on a miss, the datum is coerced to each class
     of `types` in turn (a tuple made from a *set* of classes: the order is the interpreter's, the harness
     reads it off the same construction); a coerced value that is a literal is returned, a coerced value that
-    is not (`KeyError`) moves on to the next class, a `ValidationError` of the coercer escapes -/
+    is not (`KeyError`) moves on to the next class, and so does a class the datum cannot be coerced to (repair of row 80: the coercer's
+    `ValidationError` used to escape, so the outcome depended on the order of the set) -/
 def tryLitClasses (env : CoerceEnv) (vs : List Lit) (en : Option (String × List String)) (d : Py) :
     List JClass → Outcome Val
   | [] => runLiteral vs en d
@@ -469,7 +470,7 @@ def tryLitClasses (env : CoerceEnv) (vs : List Lit) (en : Option (String × List
           (match runLiteral.lastMatch d' vs 0 Option.none with
            | some _ => runLiteral vs en d'
            | Option.none => tryLitClasses env vs en d cs)
-      | .invalid e => .invalid e
+      | .invalid _ => tryLitClasses env vs en d cs
       | .crash x => .crash x
 
 def runLiteralC (env : CoerceEnv) (vs : List Lit) (en : Option (String × List String)) (d : Py) : Outcome Val :=
